@@ -281,6 +281,22 @@ def addBlock (fuel : Nat) (s : St) (b : Block) : St × Res :=
   else if (s.disk.blocks b.hash).isSome then (s, .existed)
   else addCore fuel s b
 
+/-- The loop of the sync fork switch (`blockChainFork.triggerOnChain`): `tryAddBlockOnChain` — i.e.
+    `consensusVerify` then `addBlockOnChain`, exactly `addBlock` — for each fork block in turn, stopping at the
+    first one that is not added. -/
+def forkAdd (fuel : Nat) : St → List Block → St
+  | s, [] => s
+  | s, b :: bs =>
+    match addBlock fuel s b with
+    | (s', .succ) => forkAdd fuel s' bs
+    | (s', _) => s'
+
+/-- `triggerOnChain` once its own checks have passed: `removeFromCommonAncestor(commonAncestor)`, then the
+    fork's blocks one by one. (Its checks — fork tip QN not lower, `nextPvGreatThanFork` on a tie — read the
+    fork store of the sync processor and are not modelled; the theorems hold whatever they decide.) -/
+def forkSwitch (fuel : Nat) (s : St) (anc : Block) (bs : List Block) : St :=
+  forkAdd fuel (removeFromCommonAncestor s anc) bs
+
 /-- `TxPool.AddTransaction`. -/
 def poolAdd (s : St) (t : Nat) : St × Bool :=
   if t ∈ s.mem.pending ∨ (s.disk.executed t).isSome then (s, false)
